@@ -14,20 +14,63 @@ static Cfg cfg;
 struct Em; struct Li;
 static void onSlot(Li* self, int sig, int k, int arg);
 
+// The library has one emit / connect overload per number of signal parameters (0..8): the two signals of the harness take
+// VF_ARITY_A and VF_ARITY_B int parameters (default 0 and 1), and the check builds one binary per pair.
+#ifndef VF_ARITY_A
+#define VF_ARITY_A 0
+#endif
+#ifndef VF_ARITY_B
+#define VF_ARITY_B 1
+#endif
+#define VF_P0
+#define VF_P1 int a1
+#define VF_P2 int a1, int
+#define VF_P3 int a1, int, int
+#define VF_P4 int a1, int, int, int
+#define VF_P5 int a1, int, int, int, int
+#define VF_P6 int a1, int, int, int, int, int
+#define VF_P7 int a1, int, int, int, int, int, int
+#define VF_P8 int a1, int, int, int, int, int, int, int
+#define VF_C0
+#define VF_C1 , x
+#define VF_C2 , x, 2
+#define VF_C3 , x, 2, 3
+#define VF_C4 , x, 2, 3, 4
+#define VF_C5 , x, 2, 3, 4, 5
+#define VF_C6 , x, 2, 3, 4, 5, 6
+#define VF_C7 , x, 2, 3, 4, 5, 6, 7
+#define VF_C8 , x, 2, 3, 4, 5, 6, 7, 8
+#define VF_F0 0
+#define VF_F1 a1
+#define VF_F2 a1
+#define VF_F3 a1
+#define VF_F4 a1
+#define VF_F5 a1
+#define VF_F6 a1
+#define VF_F7 a1
+#define VF_F8 a1
+#define VF_CAT_(a, b) a##b
+#define VF_CAT(a, b) VF_CAT_(a, b)
+#define PARAMS_A VF_CAT(VF_P, VF_ARITY_A)
+#define PARAMS_B VF_CAT(VF_P, VF_ARITY_B)
+#define CARGS_A VF_CAT(VF_C, VF_ARITY_A)
+#define CARGS_B VF_CAT(VF_C, VF_ARITY_B)
+#define FIRST_A VF_CAT(VF_F, VF_ARITY_A)
+#define FIRST_B VF_CAT(VF_F, VF_ARITY_B)
 struct Em : public Callback::Emitter
 {
   int id;
-  void sigA() {}
-  void sigB(int) {}
-  void fire(int s, int x) { if(s == 0) emit(&Em::sigA); else emit(&Em::sigB, x); }
+  void sigA(PARAMS_A) {}
+  void sigB(PARAMS_B) {}
+  void fire(int s, int x) { (void)x; if(s == 0) emit(&Em::sigA CARGS_A); else emit(&Em::sigB CARGS_B); }
 };
 struct Li : public Callback::Listener
 {
   int id;
-  void s1() { onSlot(this, 0, 0, 0); }
-  void s2() { onSlot(this, 0, 1, 0); }
-  void t1(int x) { onSlot(this, 1, 0, x); }
-  void t2(int x) { onSlot(this, 1, 1, x); }
+  void s1(PARAMS_A) { onSlot(this, 0, 0, FIRST_A); }
+  void s2(PARAMS_A) { onSlot(this, 0, 1, FIRST_A); }
+  void t1(PARAMS_B) { onSlot(this, 1, 0, FIRST_B); }
+  void t2(PARAMS_B) { onSlot(this, 1, 1, FIRST_B); }
 };
 
 struct Conn { int id, e, s, l, k; bool live; };
@@ -145,7 +188,7 @@ struct World
     if(stack.empty()) { fail("C12:invocation-outside-emission", vf::fmt("L%d.slot%d invoked although no emission is in progress", lid, k)); return; }
     Frame& f = stack.back();
     if(f.dead) { fail("C12:invoked-after-emitter-destroyed", vf::fmt("L%d.slot%d invoked by an emission whose emitter E%d has been destroyed", lid, k, f.e)); return; }
-    if(sig != f.s || (sig == 1 && arg != f.arg)) { fail("C12:wrong-signal", vf::fmt("L%d.slot%d invoked for signal %d with argument %d, emission in progress is E%d.sig%c(%d)", lid, k, sig, arg, f.e, 'A' + f.s, f.arg)); return; }
+    if(sig != f.s || ((sig == 1 ? VF_ARITY_B : VF_ARITY_A) > 0 && arg != f.arg)) { fail("C12:wrong-signal", vf::fmt("L%d.slot%d invoked for signal %d with argument %d, emission in progress is E%d.sig%c(%d)", lid, k, sig, arg, f.e, 'A' + f.s, f.arg)); return; }
     // next expected: first snapshot entry at or after the cursor that is still connected
     size_t i = f.cursor;
     while(i < f.snapshot.size() && !conns[f.snapshot[i]].live) ++i;
